@@ -36,7 +36,18 @@ def adversarial_pair(rng, tf):
     p = rng.randint(2, 9)
     other_input = rng.choice(("high", "low", "open"))
     kind = rng.choice(("substring", "substring", "helper_sma", "helper_stdev", "helper_tr", "tf_suffix",
-                       "override_prefix", "suffix", "helper_class", "helper_class"))
+                       "override_prefix", "suffix", "helper_class", "helper_class", "shared_args"))
+    if kind == "shared_args":
+        # two wrapped movement functions given as configuration dicts whose "args" is the SAME dict object
+        # (the common argument written once by the caller), each with a loose keyword of its own
+        one = rng.choice(("close", "high", "low"))
+        fa, fb = rng.sample(("cross", "crossover", "crossunder"), 2)
+        ta, tb = rng.sample(("open", "volume", "high", "low", "close"), 2)
+
+        def wrapped(fn, two):
+            return {"cls": "Amorph", "analysis": fn, "params": {"indicator_one": one, "indicator_two": two}, "common": {},
+                    "shared_args": {"key": "common", "args": {"indicator_one": one}, "loose": {"indicator_two": two}}}
+        return wrapped(fa, ta), wrapped(fb, tb), kind
     if kind == "helper_class":
         # the composite's helpers are named after their owner today; a partner with the helper's CLASS,
         # the same period and another input / rounding has the name the helper would have by default
@@ -141,6 +152,8 @@ def plan(seed, subbatch):
         fired["hexital_timeframe_fill"] += 1
     # (no lifespan here: a member purged or recalculated by an action restarts over the retained window only,
     # which legitimately differs from its never-purged solo twin)
+    if sub_rng(seed, "add-later").random() < 0.15:
+        hexcfg["add_later"] = True     # the Hexital (and each solo twin) is built empty, members arrive through add_indicator
     fired["relation_" + relation] += 1
     fired["operator_ops"] += n_ops
     return {"format": 1, "property": ID, "seed": seed, "subbatch": subbatch,
